@@ -375,6 +375,9 @@ func (r *Runner) doSync() {
 func (r *Runner) doMerge() {
 	var err error
 	before := len(r.dataFiles("db"))
+	if r.C.Prop == "C06" {
+		r.inc("merge_attempts")
+	}
 	if !r.call("Merge", func() { err = r.DB.Merge() }) {
 		return
 	}
@@ -383,26 +386,31 @@ func (r *Runner) doMerge() {
 	}
 	r.extra["lastMergeErr"] = err
 	if err != nil {
+		// "Merge either reports an error and changes no key's value": an error is a legal outcome everywhere; the
+		// reads and dumps that follow check that nothing changed. Only two refusals are judged by name.
 		r.inc("merge_errors")
+		r.inc("merge_error_" + errName(err))
 		if errors.Is(err, kv.ErrNoEnoughSpaceForMerge) && r.C.Free == 0 && r.C.Prop == "C17" {
 			r.fail("merge-refused-nospace", "", "Merge refused with ErrNoEnoughSpaceForMerge although free space is ample")
-			return
 		}
-		if r.C.Prop == "C06" {
-			// "Merge either reports an error and changes no key's value": checked by the dumps that follow
-			r.inc("merge_error_returned")
-		} else if r.C.Free == 0 && r.C.FaultAt == 0 {
-			// an unexpected merge failure is C06's business
-			old := r.judging
-			r.judging = false
-			r.fail("merge-error", errName(err), "Merge = %s", errName(err))
-			r.judging = old
+		// a failed attempt may have removed the finished merge of an earlier attempt
+		if r.FS.Live.File("db-merge/000000000.merge-finished") == nil {
+			r.extra["mergePending"] = false
 		}
 		return
 	}
 	r.inc("merges")
 	r.extra["mergePending"] = true
 	r.extra["filesBeforeMerge"] = before
+	r.extra["mergeStep"] = r.step
+	snap := map[string]map[string]bool{}
+	for k, v := range r.M {
+		snap[k] = map[string]bool{string(v): true}
+	}
+	r.extra["liveAtMerge"] = snap
+	if r.C.Prop == "C18" {
+		r.checkHint()
+	}
 }
 
 func (r *Runner) allSameFileSize() bool {
@@ -423,6 +431,13 @@ func (r *Runner) doRestart(op *Op) {
 		r.fail("pre-restart-dump", "", "live dump before Close differs from the model: %s %s", f, diffState(pre, r.M))
 		r.judging = old
 		return
+	}
+	if _, f := r.activeDataFile(); f != nil {
+		if d := f.Size % blockSz; d != 0 && blockSz-d <= 9 {
+			r.inc("restart_file_end_near_boundary")
+		} else if d == 0 && f.Size > 0 {
+			r.inc("restart_file_end_on_boundary")
+		}
 	}
 	r.judging = r.judges("close") || r.C.Prop == "C13"
 	if r.C.Prop == "C02" {
@@ -491,6 +506,11 @@ func (r *Runner) afterAdoptingRestart() {
 		}
 	} else {
 		r.inc("merge_dir_gone")
+	}
+	if r.C.Prop == "C06" && !r.violated() {
+		step, _ := r.extra["mergeStep"].(int)
+		snap, _ := r.extra["liveAtMerge"].(map[string]map[string]bool)
+		r.checkAdopted(step, snap)
 	}
 }
 
